@@ -10,6 +10,11 @@ Streams (all random choices from ctx.rng):
             with coq/C04/Inline.v (variant alias=false: the parameter dict is copied per site), the spec `bind` with
             inspect.signature(...).bind.  Oracle: the entry module is executed before and after in a subprocess
             (stdout and exit status equal), every module parses, after remove=True the name is referenced nowhere.
+            Further method-kind streams: "rich-layout" (the function returns an object; call layouts spanning several
+            physical lines; the value used through trailers .attr / .method(...) / [i] / operator after the closing
+            parenthesis, also when the call starts its statement, on the right of assignments, as arguments) and
+            "method-call" (a method of a class inlined at call sites whose receivers are attribute chains of depth
+            1-4; CallInfo.read's argument list is compared inside Coq with Receiver.read_args).
   variable  straight-line modules over  x = e / print(e, ...)  with sums, products, parentheses; the variable is read
             in different operand positions, its operands are sometimes reassigned, it is sometimes assigned twice
             (refusal); the module after the change is parsed back and compared inside Coq with Expr.inline_variable;
@@ -21,7 +26,7 @@ import json
 import re
 import traceback
 
-from harness.common import g_N, g_bool, g_list, g_opt
+from harness.common import g_N, g_bool, g_list, g_opt, g_text
 from harness import c04_lib as L
 
 PROPERTY = "C04"
@@ -44,6 +49,15 @@ SIG_STAR_CALL = "method:a call site passes *args or **kwargs"
 SIG_RETURN_NOT_LAST = "method:the body has a return that is not its last statement and a call site does not use the value"
 SIG_VDEP = "variable:an operand of the inlined right-hand side is reassigned between the definition and a read"
 SIG_VPREC = "variable:the right-hand side is a sum and a read sits in a product or after a minus sign"
+
+
+def fname(obj):
+    return obj.get("fname", FNAME)
+
+
+def obj_sites(obj, src):
+    """call sites of the inlined function / method in a module (textual order)"""
+    return L.call_sites(src, fname(obj), DEFMOD, method=obj.get("method", False))
 
 
 # ============================================================================= method stream: generator
@@ -92,7 +106,66 @@ def fmt_call(func, pos, kws):
     return "%s(%s)" % (func, ", ".join(parts))
 
 
-def gen_method(rng, force_sites=None, shape=None):
+BOX = """class Box:
+    def __init__(self, v):
+        self.v = v
+
+    def show(self, tag):
+        print(tag, self.v)
+        return self
+
+    def __getitem__(self, i):
+        print('item', i, self.v)
+        return self
+
+    def __add__(self, o):
+        print('add', self.v, o)
+        return self
+"""
+
+
+def layout_call(rng, func, pos, kws, multiline):
+    """the call text; multiline: the argument list is spread over several physical lines in one of a few styles"""
+    parts = [L.show_sum(e) for e in pos] + ["%s=%s" % (n, L.show_sum(e)) for n, e in kws]
+    if not multiline:
+        return "%s(%s)" % (func, ", ".join(parts))
+    style = rng.randrange(3)
+    if style == 0 or not parts:       # one argument per line, closing parenthesis on its own line
+        return "%s(\n%s)" % (func, "".join("    %s,\n" % x for x in parts))
+    if style == 1:                    # hanging: first argument after the parenthesis
+        return "%s(%s)" % (func, (",\n" + " " * (len(func) + 1)).join(parts))
+    return "%s(\n        %s\n    )" % (func, ", ".join(parts))
+
+
+def site_statements(rng, s, call, uses_value, rich):
+    """the statements of call site number s.  rich (the function returns a Box): the value is used through
+    trailers (.attr, .method(...), [i], binary operator) after the closing parenthesis, also when the call starts
+    its statement; otherwise assignment / argument / bare statement."""
+    if rich:
+        form = rng.choice(["stmt", "assign", "arg", "trail-stmt", "trail-stmt", "trail-assign", "trail-arg"])
+        if form == "stmt":
+            return [call]
+        if form == "assign":
+            return ["v%d = %s" % (s, call), "print('s%d', v%d.v)" % (s, s)]
+        if form == "arg":
+            return ["print('s%d', type(%s).__name__)" % (s, call)]
+        if form == "trail-stmt":
+            return [call + rng.choice([".show('s%d')" % s, "[%d]" % s, " + %d" % s, ".show('s%d').show('again')" % s])]
+        if form == "trail-assign":
+            return ["v%d = %s.v" % (s, call), "print('s%d', v%d)" % (s, s)]
+        return ["print('s%d', %s.v + 1)" % (s, call)]
+    if uses_value:
+        if rng.random() < 0.5:
+            return ["v%d = %s" % (s, call), "print('s%d', v%d)" % (s, s)]
+        return ["print('s%d', %s)" % (s, call)]
+    return [call]
+
+
+def indent_block(stmts, pad="    "):
+    return [pad + line for st in stmts for line in st.split("\n")]
+
+
+def gen_method(rng, force_sites=None, shape=None, rich=False):
     """shape: None (main stream: arguments are single products over host names that are not names of the
     function, parameters are not reassigned), or one of the known defect shapes
     "capture" (an argument mentions a parameter/local name of the function), "reassign" (the body assigns a
@@ -107,7 +180,7 @@ def gen_method(rng, force_sites=None, shape=None):
     returns = rng.random() < 0.4
     if shape == "return-not-last":
         returns = False
-    if shape == "dead-after-used-return":
+    if shape == "dead-after-used-return" or rich:
         returns = True
     use_global = rng.random() < 0.3 or shape == "import-capture"
     local = rng.random() < 0.4
@@ -124,7 +197,8 @@ def gen_method(rng, force_sites=None, shape=None):
     if use_global:
         body.append("print(%s + K)" % rng.choice(names))
     if returns:
-        body.append("return %s" % L.show_sum(gen_body_sum(rng, names + (["t"] if local else []))))
+        ret = L.show_sum(gen_body_sum(rng, names + (["t"] if local else [])))
+        body.append("return Box(%s)" % ret if rich else "return %s" % ret)
     if shape == "return-not-last":
         if rng.random() < 0.5:
             body += ["return 7", "print(999)"]
@@ -145,7 +219,7 @@ def gen_method(rng, force_sites=None, shape=None):
         lines = []
         style = None
         if m == 0:
-            lines += ["K = 9"]
+            lines += ["K = 9"] + (BOX.split("\n") if rich else [])
         else:
             # a module without call sites rarely imports the function by name (see SIG_IMPORT_ONLY)
             style = rng.choice(["from", "import"]) if (sites_of[m] or rng.random() < 0.15) else "import"
@@ -190,21 +264,16 @@ def gen_method(rng, force_sites=None, shape=None):
                     pos[rng.randrange(len(pos))] = e
                 else:
                     kws[0] = (kws[0][0], e)
-            call = fmt_call(func, pos, kws)
+            call = layout_call(rng, func, pos, kws, multiline=(shape is None and rng.random() < (0.6 if rich else 0.25)))
             if shape == "star-call" and s == sites_of[m][0]:
                 lines += ["tt = (%s)" % "".join("%d, " % (7 + j) for j in range(len(params)))]
                 call = "%s(*tt)" % func
             if shape == "kwstar-call" and s == sites_of[m][0]:
                 lines += ["dd = {%s}" % ", ".join("'%s': %d" % (n, 7 + j) for j, (n, _) in enumerate(params))]
                 call = "%s(**dd)" % func
-            if returns:
-                form = rng.choice(["assign", "print"])
-                stmts = (["v%d = %s" % (s, call), "print('s%d', v%d)" % (s, s)] if form == "assign"
-                         else ["print('s%d', %s)" % (s, call)])
-            else:
-                stmts = [call]
+            stmts = site_statements(rng, s, call, returns, rich)
             if rng.random() < 0.3:
-                lines += ["", "", "def g%d():" % s] + ["    " + x for x in stmts] + ["", "", "g%d()" % s]
+                lines += ["", "", "def g%d():" % s] + indent_block(stmts) + ["", "", "g%d()" % s]
             else:
                 lines += stmts
         if cvar:
@@ -216,11 +285,78 @@ def gen_method(rng, force_sites=None, shape=None):
            "at": ["mod0.py", files["mod0.py"].index("def %s(" % FNAME) + 4]}
     if rng.random() < 0.2:
         # only the current occurrence; the definition may go only when it is the only one
-        cands = [(fn, s) for fn in sorted(files) if fn != "main.py" for s in L.call_sites(files[fn], FNAME, DEFMOD)]
+        cands = [(fn, s) for fn in sorted(files) if fn != "main.py" for s in obj_sites(obj, files[fn])]
         fn, s = rng.choice(cands)
         obj["only_current"] = True
         obj["at"] = [fn, s["name_offset"]]
         obj["remove"] = remove and len(cands) == 1
+    return obj
+
+
+MNAME = "get"
+
+
+def gen_methodcall(rng):
+    """a method `Store.get` inlined at call sites whose receivers are attribute chains of depth 1-3 (`s`, `app.store`,
+    `app.hub.store`; one more level through `mod0.` in modules that import the module); every object on a chain
+    has its own `base`, so a receiver cut short reads another object's attribute"""
+    k = rng.choice([1, 2, 2, 3])
+    names = PARAMS[:k]
+    ndef = min(rng.choice([0, 1, 1, 2]), k)
+    params = [(n, None) for n in names[:k - ndef]] + [(n, str(50 + j)) for j, n in enumerate(names[k - ndef:])]
+    returns = rng.random() < 0.5
+    body = ["print(%s)" % ", ".join(["100", "self.base"] + names)]
+    if rng.random() < 0.5:
+        body.append("print(self.base + %s)" % L.show_sum(gen_body_sum(rng, names)))
+    if returns:
+        body.append("return self.base * 2 + %s" % names[0])
+    host_method = rng.random() < 0.3
+    sig = ", ".join(["self"] + [n if d is None else "%s=%s" % (n, d) for n, d in params])
+    lines = ["class Store:", "    def __init__(self, base):", "        self.base = base", "",
+             "    def %s(%s):" % (MNAME, sig)] + ["        " + b for b in body] + [""]
+    if host_method:
+        pos, kws = gen_site(rng, params, 8)
+        lines += ["    def twice(self):"] + indent_block(
+            site_statements(rng, 8, layout_call(rng, "self." + MNAME, pos, kws, rng.random() < 0.3), returns, False), "        ") + [""]
+    lines += ["", "class Hub:", "    def __init__(self):", "        self.base = 2000", "        self.store = Store(20)", "", "",
+              "class App:", "    def __init__(self):", "        self.base = 1000", "        self.store = Store(10)",
+              "        self.hub = Hub()", "", "", "s = Store(5)", "app = App()"]
+    lines += ["%s = %d" % (v, HOSTVAL[v]) for v in HOSTV]
+    nmod = rng.choice([1, 2, 2, 3])
+    nsites = rng.randint(1, 6)
+    sites_of = [[] for _ in range(nmod)]
+    for i in range(nsites):
+        sites_of[rng.randrange(nmod)].append(i)
+    files = {}
+    for m in range(nmod):
+        if m > 0:
+            style = rng.choice(["from", "import"])
+            lines = ["from %s import s, app" % DEFMOD if style == "from" else "import %s" % DEFMOD]
+            lines += ["%s = %d" % (v, HOSTVAL[v]) for v in HOSTV]
+            prefix = "" if style == "from" else DEFMOD + "."
+        else:
+            prefix = ""
+        for i in sites_of[m]:
+            recv = prefix + rng.choice(["s", "app.store", "app.store", "app.hub.store", "app.hub.store"])
+            pos, kws = gen_site(rng, params, i)
+            call = layout_call(rng, "%s.%s" % (recv, MNAME), pos, kws, rng.random() < 0.3)
+            stmts = site_statements(rng, i, call, returns, False)
+            if rng.random() < 0.25:
+                lines += ["", "", "def g%d():" % i] + indent_block(stmts) + ["", "", "g%d()" % i]
+            else:
+                lines += stmts
+        if m == 0 and host_method:
+            lines += ["s.twice()", "app.hub.store.twice()"]
+        files["mod%d.py" % m] = "\n".join(lines) + "\n"
+    files["main.py"] = "".join("import mod%d\n" % m for m in range(nmod))
+    obj = {"kind": "method", "method": True, "fname": MNAME, "files": files, "entry": "main.py",
+           "remove": rng.random() < 0.5, "only_current": False,
+           "at": ["mod0.py", files["mod0.py"].index("def %s(" % MNAME) + 4]}
+    if rng.random() < 0.15:
+        cands = [(fn, x) for fn in sorted(files) if fn != "main.py" for x in obj_sites(obj, files[fn])]
+        if cands:
+            fn, x = rng.choice(cands)
+            obj.update({"only_current": True, "at": [fn, x["name_offset"]], "remove": False})
     return obj
 
 
@@ -236,12 +372,21 @@ class Observer:
         self.inline = inline
         self.orig = inline._DefinitionGenerator._calculate_header
         self.orig_def = inline._DefinitionGenerator._calculate_definition
+        self.fu = inline.functionutils
+        self.orig_read = self.fu.CallInfo.read
+        self.last_read = None
         obs = self
 
+        def wrapped_read(primary, pyname, definition_info, code):
+            ci = obs.orig_read(primary, pyname, definition_info, code)
+            obs.last_read = {"args": list(ci.args), "implicit": bool(ci.implicit_arg), "constructor": bool(ci.constructor)}
+            return ci
+
         def wrapped(gen, primary, pyname, call):
+            obs.last_read = None
             header, tbi = obs.orig(gen, primary, pyname, call)
             obs.log.append({"gen": id(gen), "call": call, "header": header, "tbi": list(tbi),
-                            "after": list(gen.definition_params.items())})
+                            "after": list(gen.definition_params.items()), "read": obs.last_read})
             return header, tbi
 
         def wrapped_def(gen, primary, pyname, call, host_vars, returns):
@@ -254,9 +399,11 @@ class Observer:
 
         inline._DefinitionGenerator._calculate_header = wrapped
         inline._DefinitionGenerator._calculate_definition = wrapped_def
+        self.fu.CallInfo.read = staticmethod(wrapped_read)
         return self
 
     def __exit__(self, *a):
+        self.fu.CallInfo.read = staticmethod(self.orig_read)
         self.inline._DefinitionGenerator._calculate_header = self.orig
         self.inline._DefinitionGenerator._calculate_definition = self.orig_def
 
@@ -387,7 +534,7 @@ STAR_MSG = "Cannot inline functions with list and keyword arguments."
 def method_case(obj, res):
     """-> (Gallina term | None, problem | None, info)"""
     files = obj["files"]
-    d = L.find_def(files[DEFMOD + ".py"], FNAME)
+    d = L.find_def(files[DEFMOD + ".py"], fname(obj))
     I = L.Intern()
     for n, _ in d["params"]:
         I(n)
@@ -397,7 +544,7 @@ def method_case(obj, res):
         if res["refused"][1] == STAR_MSG:
             return "(mkM %s true [])" % gdef, None, info
         return None, None, info          # other refusals are outside this model
-    per_mod = {fn: L.call_sites(src, FNAME, DEFMOD) for fn, src in files.items() if fn != obj["entry"]}
+    per_mod = {fn: obj_sites(obj, src) for fn, src in files.items() if fn != obj["entry"]}
     normal, others = expected_groups(obj, res["order"], per_mod)
     groups = []
     for key, sites in (("normal", normal), ("others", others)):
@@ -417,6 +564,11 @@ def method_case(obj, res):
                 L.g_pairs(I, hdr), L.g_state(I, e["after"]), g_opt(None if pb is None else L.g_pairs(I, pb))))
             info["nsites"] += 1
             info.setdefault("entries", []).append((e, hdr))
+            if e.get("read") and not (s["star"] or s["kwstar"]) and not e["read"]["constructor"]:
+                pos_src = s["args"][1:] if obj.get("method") else s["args"]
+                info.setdefault("rcases", []).append("(mkR %s %s %s %s)" % (
+                    g_text(s["head"]), g_bool(e["read"]["implicit"]), g_list([g_text(a) for a in pos_src]),
+                    g_list([g_text(a) for a in e["read"]["args"]])))
         groups.append("(mkGroup %s %s)" % (L.g_state(I, init), g_list(gs)))
     info["dcases"] = definition_cases(I, info.get("entries", []))
     return "(mkM %s false %s)" % (gdef, g_list(groups)), None, info
@@ -492,13 +644,13 @@ def alias_shape(obj, order=None):
     """within the sites handled by one generator (defining module; all other modules in processing order) a
     later site omits a defaulted parameter that an earlier site passed with a text other than the default"""
     files = obj["files"]
-    d = L.find_def(files[DEFMOD + ".py"], FNAME)
+    d = L.find_def(files[DEFMOD + ".py"], fname(obj))
     if d is None or obj.get("only_current"):
         return False
     names = [n for n, _ in d["params"]]
     dflt = dict(d["params"])
     mods = [fn for fn in (order or sorted(files)) if fn in files and fn != obj["entry"]]
-    per_mod = {fn: L.call_sites(files[fn], FNAME, DEFMOD) for fn in mods}
+    per_mod = {fn: obj_sites(obj, files[fn]) for fn in mods}
     groups = [per_mod.get(DEFMOD + ".py", []), [s for fn in mods if fn != DEFMOD + ".py" for s in per_mod[fn]]]
     for g in groups:
         passed = {}
@@ -516,7 +668,7 @@ def guest_shapes(obj):
     """{"capture", "reassign", "precedence"}: structural, from the sources"""
     files = obj["files"]
     src = files[DEFMOD + ".py"]
-    d = L.find_def(src, FNAME)
+    d = L.find_def(src, fname(obj))
     if d is None:
         return set()
     node = d["node"]
@@ -532,7 +684,7 @@ def guest_shapes(obj):
     for fn, msrc in files.items():
         if fn == obj["entry"]:
             continue
-        for s in L.call_sites(msrc, FNAME, DEFMOD):
+        for s in obj_sites(obj, msrc):
             b = L.py_bind(d["params"], s["args"], s["kws"]) if not (s["star"] or s["kwstar"]) else None
             for p, v in b or []:
                 if v == p:
@@ -549,12 +701,12 @@ def guest_shapes(obj):
 
 def star_call_shape(obj):
     return any(s["star"] or s["kwstar"] for fn, src in obj["files"].items() if fn != obj["entry"]
-               for s in L.call_sites(src, FNAME, DEFMOD))
+               for s in obj_sites(obj, src))
 
 
 def return_not_last_shape(obj):
     """the body contains a return that is not its last statement and some call site does not use the value"""
-    d = L.find_def(obj["files"][DEFMOD + ".py"], FNAME)
+    d = L.find_def(obj["files"][DEFMOD + ".py"], fname(obj))
     if d is None:
         return False
     node = d["node"]
@@ -567,7 +719,7 @@ def return_not_last_shape(obj):
         for n in ast.walk(ast.parse(src)):
             if isinstance(n, ast.Expr) and isinstance(n.value, ast.Call):
                 f = n.value.func
-                if (isinstance(f, ast.Name) and f.id == FNAME) or (isinstance(f, ast.Attribute) and f.attr == FNAME):
+                if (isinstance(f, ast.Name) and f.id == fname(obj)) or (isinstance(f, ast.Attribute) and f.attr == fname(obj)):
                     return True
     return False
 
@@ -579,14 +731,14 @@ def nochange_shape(obj):
     dm = DEFMOD + ".py"
     if obj.get("only_current"):
         return False
-    return not L.call_sites(obj["files"][dm], FNAME, DEFMOD)
+    return not obj_sites(obj, obj["files"][dm])
 
 
 def import_only_shape(obj):
     """remove=True and a module in which no occurrence is rewritten imports the inlined name by name"""
     if not obj.get("remove"):
         return False
-    name = FNAME if obj["kind"] == "method" else obj.get("name")
+    name = fname(obj) if obj["kind"] == "method" else obj.get("name")
     for fn, src in obj["files"].items():
         if fn in (obj["entry"], DEFMOD + ".py"):
             continue
@@ -594,7 +746,7 @@ def import_only_shape(obj):
         imports_name = any(isinstance(n, ast.ImportFrom) and n.module == DEFMOD and any(a.name == name for a in n.names)
                            for n in ast.walk(tree))
         if obj["kind"] == "method":
-            handled = bool(L.call_sites(src, FNAME, DEFMOD)) and not (obj.get("only_current") and obj["at"][0] != fn)
+            handled = bool(obj_sites(obj, src)) and not (obj.get("only_current") and obj["at"][0] != fn)
         else:
             handled = any((isinstance(n, ast.Name) and n.id == name and isinstance(n.ctx, ast.Load))
                           or (isinstance(n, ast.Attribute) and n.attr == name) for n in ast.walk(tree))
@@ -691,7 +843,7 @@ def import_capture_shape(obj):
         sp = L.split_def(obj["name"], prog)
         free = set(L.vars_sum(sp[1])) if sp else set()
     else:
-        d = L.find_def(dsrc, FNAME)
+        d = L.find_def(dsrc, fname(obj))
         if d is None:
             return False
         bound = {n for n, _ in d["params"]}
@@ -741,14 +893,14 @@ def variable_signature(obj):
 
 # ============================================================================= parameter stream (oracle only)
 def gen_parameter(rng):
-    obj = gen_method(rng)
+    obj = gen_methodcall(rng) if rng.random() < 0.4 else gen_method(rng, rich=rng.random() < 0.3)
     src = obj["files"]["mod0.py"]
-    d = L.find_def(src, FNAME)
+    d = L.find_def(src, fname(obj))
     with_default = [n for n, dv in d["params"] if dv is not None]
     if not with_default:
         return None
     n = rng.choice(with_default)
-    m = re.compile(r"[(,]\s*(%s)\b" % n).search(src, src.index("def %s(" % FNAME))
+    m = re.compile(r"[(,]\s*(%s)\b" % n).search(src, src.index("def %s(" % fname(obj)))
     obj.update({"kind": "parameter", "at": ["mod0.py", m.start(1)], "remove": False, "only_current": False, "name": n})
     return obj
 
@@ -786,12 +938,12 @@ def replay(ctx, obj):
     res = run_rope(obj)
     if res["before"][0] != 0:
         return False
-    return oracle(obj, res, removed_name=FNAME if obj["kind"] == "method" else None) is not None
+    return oracle(obj, res, removed_name=fname(obj) if obj["kind"] == "method" else None) is not None
 
 
 # ============================================================================= checking
 HEADER = ("From Coq Require Import List NArith ZArith Bool.\nImport ListNotations.\n"
-          "From RopeVerif.C04 Require Import Inline Expr Runner.\n")
+          "From RopeVerif.C04 Require Import Inline Expr Receiver Runner.\n")
 
 VARIANTS = {
     "aliased": "REGRESSION: self.definition_params is updated in place by every call site (model variant alias=true)",
@@ -828,7 +980,7 @@ def check_methods(ctx, objs):
         runs.append(res)
     terms, idx_of, all_infos = [], [], {}
     for i, (obj, res) in enumerate(zip(objs, runs)):
-        res["oracle"] = oracle(obj, res, removed_name=FNAME)
+        res["oracle"] = oracle(obj, res, removed_name=fname(obj))
         if res["before"][0] != 0:
             ctx.count("method:generated program does not run (skipped)")
             continue
@@ -869,7 +1021,21 @@ def check_methods(ctx, objs):
     dshard = 150
     dbodies = [HEADER + "Definition dcases : list dcase := %s.\nEval vm_compute in (dresults dcases).\n"
                % g_list(dterms[s:s + dshard]).replace("; (mkDC", ";\n (mkDC") for s in range(0, len(dterms), dshard)]
-    outs = ctx.coq_files_parallel(bodies + dbodies) if bodies else []
+    rterms, rowner = [], []
+    for i in idx_of:
+        for t in all_infos[i].get("rcases", []):
+            rterms.append(t)
+            rowner.append(i)
+    rshard = 400
+    rbodies = [HEADER + "Definition rcases : list rcase := %s.\nEval vm_compute in (rresults rcases).\n"
+               % g_list(rterms[s:s + rshard]).replace("; (mkR", ";\n (mkR") for s in range(0, len(rterms), rshard)]
+    outs = ctx.coq_files_parallel(bodies + dbodies + rbodies) if bodies else []
+    rbad = set()
+    for si, out in enumerate(outs[len(bodies) + len(dbodies):]):
+        for (k, c) in ctx.parse_pairs(out)[0]:
+            rbad.add(rowner[si * rshard + k])
+    outs = outs[:len(bodies) + len(dbodies)]
+    ctx.count("method:CallInfo.read argument lists compared with Receiver.read_args", len(rterms))
     for si, out in enumerate(outs[:len(bodies)]):
         pairs = ctx.parse_pairs(out)
         assert len(pairs) == 3, out[-2000:]
@@ -910,7 +1076,9 @@ def check_methods(ctx, objs):
         ctx.count("method:definition texts outside the modelled grammar (oracle only)", nsites - len(dc))
         ctx.count("method:sites inside side_call (domain of C04_call_params_subst)", sum(1 for c in dc if c // 10 == 3))
         pp = [x for x in (prefix_problem(e, hdr) for e, hdr in all_infos[i].get("entries", []) if "definition" in e) if x]
-        if code:
+        if i in rbad:
+            report(ctx, obj, res, "CallInfo.read: argument list (implicit receiver) differs from Receiver.read_args", res["oracle"])
+        elif code:
             report(ctx, obj, res, MCODES.get(code, "code %d" % code) + regress, res["oracle"])
         elif any(c % 10 for c in dc):
             report(ctx, obj, res, "definition text of a call site differs from Call.inline_header", res["oracle"])
@@ -1003,20 +1171,25 @@ def check_parameters(ctx, objs):
         res = run_rope(obj)
         if res["before"][0] != 0:
             continue
-        ctx.count("parameter:" + ("refused" if res["refused"] else "inlined"))
+        ctx.count("parameter:" + ("refused" if res["refused"] else "inlined") + (":method" if obj.get("method") else ""))
         ctx.case(("parameter", json.dumps(obj["files"], sort_keys=True), obj["at"]), nontrivial=True)
         ofail = oracle(obj, res)
         if ofail is None and res["refused"] is None:
             # every call now passes the parameter explicitly
-            d = L.find_def(obj["files"]["mod0.py"], FNAME)
+            d = L.find_def(obj["files"]["mod0.py"], fname(obj))
             names = [n for n, _ in d["params"]]
             for fn, src in res["files"].items():
                 if fn == obj["entry"]:
                     continue
-                for s in L.call_sites(src, FNAME, DEFMOD):
+                for s in obj_sites(obj, src):
                     given = set(names[:len(s["args"])]) | {k for k, _ in s["kws"]}
                     if obj["name"] not in given:
                         ofail = "%s: call %s still relies on the default of %s" % (fn, s["text"], obj["name"])
+                # the callee expression (receiver included) of every call is what it was
+                heads_before = [x["head"] for x in obj_sites(obj, obj["files"][fn])]
+                heads_after = [x["head"] for x in obj_sites(obj, src)]
+                if heads_before != heads_after and ofail is None:
+                    ofail = "%s: callee expressions change: %r -> %r" % (fn, heads_before, heads_after)
         if ofail:
             report(ctx, obj, res, None, ofail)
 
@@ -1044,6 +1217,15 @@ def run(ctx):
         mobjs.append(o)
     for _ in range(nm):
         k = rng.random()
+        if k < 0.18:
+            mobjs.append(gen_methodcall(rng))
+            mobjs[-1]["shape"] = "method-call"
+            continue
+        if k < 0.36:
+            mobjs.append(gen_method(rng, rich=True))
+            mobjs[-1]["shape"] = "rich-layout"
+            continue
+        k = (k - 0.36) / 0.64
         shape = (None if k < 0.70 else "capture" if k < 0.75 else "reassign" if k < 0.79 else "precedence" if k < 0.85
                  else "import-capture" if k < 0.88 else
                  rng.choice(MALFORMED))
